@@ -31,8 +31,9 @@ def run(pid):
  FrameBytes <- cFB
  HeaderBytes = 3
  Declared <- cDecl
+ Defects = {}
 SPECIFICATION Spec
-INVARIANT ExactlyTheCompleteFrames NeverMore CleanEndOnlyWhenEntitled OpenFailsInsideMetadata
+INVARIANT ExactlyTheCompleteFrames NeverMore CleanEndOnlyWhenEntitled OpenFailsInsideMetadata TruncationReported
 CHECK_DEADLOCK FALSE
 """ % meta)
                 mcs.append((mp, cp))
